@@ -81,7 +81,17 @@ func c01FamName(c int) string {
 
 // c01Mutation builds one mutation of a chosen kind with symbolic scalars.
 func c01Mutation(quals [][]byte, nowMs int64, nfam int) mMut {
-	kind := vChoice("mut.kind", 0, 4)
+	return c01MutationOf(quals, nowMs, nfam, 0)
+}
+
+// kindSet 0: all five kinds; 1: SetCell, DeleteFromColumn with a range, DeleteFromRow.
+func c01MutationOf(quals [][]byte, nowMs int64, nfam int, kindSet int) mMut {
+	kind := 0
+	if kindSet == 1 {
+		kind = []int{0, 2, 4}[vChoice("mut.kind", 0, 2)]
+	} else {
+		kind = vChoice("mut.kind", 0, 4)
+	}
 	switch kind {
 	case 0: // SetCell
 		fam := c01FamName(vChoice("mut.fam", 0, nfam))
